@@ -102,7 +102,24 @@ class ExprMixin:
         return self.binop(st, op, a, b, node.lineno)
 
     def ev_BoolOp(self, st, node, spec):
-        vals = [self.ev(st, v, spec) for v in node.values]
+        # short-circuit semantics: operand k is evaluated (and its bounds / division obligations are emitted)
+        # under the assumption that the earlier operands did not already decide the result
+        vals = []
+        guard_state = None
+        is_and = isinstance(node.op, ast.And)
+        for k, vnode in enumerate(node.values):
+            if k == 0 or spec:
+                v = self.ev(st, vnode, spec)
+            else:
+                if guard_state is None:
+                    guard_state = st.fork()
+                prev = vals[-1]
+                pb = self.to_bool(prev) if (is_z3(prev) or isinstance(prev, (bool, int, float))) else None
+                if pb is None:
+                    raise Unsupported("boolop on non-scalar")
+                guard_state.assume(pb if is_and else z3.Not(pb))
+                v = self._ev_guarded(st, guard_state, vnode, spec)
+            vals.append(v)
         bs = [self.to_bool(v) if (is_z3(v) or isinstance(v, (bool, int, float))) else None for v in vals]
         if any(b is None for b in bs):
             raise Unsupported("boolop on non-scalar")
